@@ -72,7 +72,8 @@ CLASSES = [ValueError, KeyError, IndexError, TypeError, ZeroDivisionError, Runti
            AssertionError, NameError] + BASE_ONLY
 CLASS_BY_NAME = dict((c.__name__, c) for c in CLASSES)
 CATCH_BY_NAME = dict(CLASS_BY_NAME, BaseException=BaseException)
-KW_NAMES = ["a", "b", "x", "key", "self", "args", "kw_1", "", "é", "a b", "\U0001F600", "class", "\ud800"]
+KW_NAMES = ["a", "b", "x", "key", "self", "_self", "args", "kwargs", "kw_1", "", "é", "a b", "\U0001F600", "class", "\ud800",
+            "self", "_self"]
 MAX_INVOCATIONS = 120
 
 
@@ -1102,6 +1103,12 @@ def boundary_programs():
     fns = [dict(owner="A", body=[("call", 0, V(R_("B", 1)), [V(R_("A", 2))], [("nt", V(R_("A", 3)))]), ("raise", "ValueError", [("v", 0), V(R_("A", 4))])]),
            dict(owner="B", body=[("ret", ("t", [("k", "nt"), ("a", 0)]))])]
     out.append(dict(fns=fns, data=["A:tuple-subclass", "A:namedtuple", "A:str-subclass"], entry=dict(callee=R_("A", 0), args=[], kwargs=[])))
+    # keyword names that a proxy's own methods might have taken for themselves: `self`, `_self`, `args`, `kwargs`
+    fns = [dict(owner="A", body=[("call", 0, V(R_("B", 1)), [V(0)], [("_self", V(1)), ("self", V(2)), ("args", V(3)), ("kwargs", V(R_("A", 2)))]), ("ret", ("v", 0))]),
+           dict(owner="B", body=[("ret", ("t", [("k", "_self"), ("k", "self"), ("k", "args"), ("k", "kwargs"), ("a", 0)]))])]
+    out.append(dict(fns=fns, data=["A:list"], entry=dict(callee=R_("A", 0), args=[], kwargs=[])))
+    fns = [dict(owner="B", body=[("ret", ("t", [("k", "_self")]))])]
+    out.append(dict(fns=fns, data=[], entry=dict(callee=R_("B", 0), args=[], kwargs=[("_self", 7)])))
     # two different classes with the same module and name but different special methods, proxied one after the other
     for first, second in (("shape-call", "shape-seq"), ("shape-seq", "shape-call")):
         fns = [dict(owner="B", body=[("call", 0, V(R_("A", 1)), [("a", 0)], []), ("call", 1, V(R_("A", 1)), [("a", 1)], []), ("ret", ("t", [("v", 0), ("v", 1)]))]),
